@@ -760,7 +760,10 @@ func MergeRows(_ interface{},
 	}
 
 	if res.Deleted {
-		return &res
+		// keep the column values written after the DELETE: an INSERT that
+		// follows with a write time between the two must not lose them,
+		// whichever way the versions are merged
+		resetValuesBefore = outTime.Add(res.DeleteUpdateOffset.AsDuration())
 	}
 
 	allKeys := make(map[string]struct{})
